@@ -75,7 +75,7 @@ func wide2(p ref.P3, k int, tag float64) geom.Coord {
 func init() {
 	engine.Register(&engine.Check{
 		ID: "C15", Level: "exploration",
-		Rule:        "2D: every point x every segment and every pair of segments (degenerate ones included) on the 4x4 (thorough 5x5) integer grid, also scaled by 2^20 and translated; point-to-linestring for every polyline of <=3 vertices x every point; perpendicular distance for lines through two distinct points. 3D: every pair of segments with endpoints in {0,1,2}^3 - zero-length first/second/both, parallel, collinear, crossing, touching, skew, optimum outside the unit square in both parameters - plus scaled copies; every point x segment; Z = NaN for xyz.Distance. Oracle: exact rational squared distance (3D by exact minimisation over the clamped parameter square); |result - sqrt(exact)| <= 1e-9 x coordinate scale; never NaN; symmetric in argument order and direction. distinct_nontrivial = distinct argument tuples with non-zero exact distance or touching sets Also: line strings of 65..200 vertices with exactly one near segment at every index in turn; point-to-linestring on 'star' zig-zags with every vertex count 2..70 and 96..1003 in strides 2..5, and long, nearly parallel 3D segments on the grid up to 2^20 (crossing, touching or skew by a few lattice steps); 2D lattice points on and one step beside long segments with rough integer coordinates up to 2^20 (point-segment, point-linestring, collinear segment pairs); ~1000 exactly axis-parallel segments crossed properly by rough segments on grids [-2^k,2^k], k=17..20. Round 7: lines of 4099, 16390, 20001 (thorough 32770, 65540) vertices queried beside every segment in both directions; point-segment and segment-segment calls repeated with coordinates that carry differing extra ordinates and different lengths. Round 8: every point-segment and segment-segment case again with the zeros of one end negative (-0). Round 9: every polyline of 4 (thorough 5) vertices on the 3x3 grid with repeats at any position x every grid point.",
+		Rule:        "2D: every point x every segment and every pair of segments (degenerate ones included) on the 4x4 (thorough 5x5) integer grid, also scaled by 2^20 and translated; point-to-linestring for every polyline of <=3 vertices x every point; perpendicular distance for lines through two distinct points. 3D: every pair of segments with endpoints in {0,1,2}^3 - zero-length first/second/both, parallel, collinear, crossing, touching, skew, optimum outside the unit square in both parameters - plus scaled copies; every point x segment; Z = NaN for xyz.Distance. Oracle: exact rational squared distance (3D by exact minimisation over the clamped parameter square); |result - sqrt(exact)| <= 1e-9 x coordinate scale; never NaN; symmetric in argument order and direction. distinct_nontrivial = distinct argument tuples with non-zero exact distance or touching sets Also: line strings of 65..200 vertices with exactly one near segment at every index in turn; point-to-linestring on 'star' zig-zags with every vertex count 2..70 and 96..1003 in strides 2..5, and long, nearly parallel 3D segments on the grid up to 2^20 (crossing, touching or skew by a few lattice steps); 2D lattice points on and one step beside long segments with rough integer coordinates up to 2^20 (point-segment, point-linestring, collinear segment pairs); ~1000 exactly axis-parallel segments crossed properly by rough segments on grids [-2^k,2^k], k=17..20. Round 7: lines of 4099, 16390, 20001 (thorough 32770, 65540) vertices queried beside every segment in both directions; point-segment and segment-segment calls repeated with coordinates that carry differing extra ordinates and different lengths. Round 8: every point-segment and segment-segment case again with the zeros of one end negative (-0). Round 9: every polyline of 4 (thorough 5) vertices on the 3x3 grid with repeats at any position x every grid point. Round 10: proper crossings near the tips of long segments of different length (all primitive directions); 3D segment pairs over {0..3}^3.",
 		Run:         c15Run,
 		Replay:      func(c *engine.Ctx, kind string, raw json.RawMessage) { c15Exec(c, decodeCase[c15Case](raw)) },
 		Assumptions: []string{"integer-grid ordinates up to 2^20 (exact squared distances); perpendicular distance only for distinct line points"},
